@@ -5,7 +5,7 @@ from pyvc.contract import Contract, register, LoopSpec
 from pyvc.core import (INT, BOOL, V, NONE, ABSENT, Seq, seq_eq, filter_seq, Enum, zint, zbool, in_range, conc,
                        Unsupported)
 from pyvc import models as M
-from pyvc.models_np import NDArr, KINDS, KCODE, kind_is, kind_term, ghost, is_nan, is_nat
+from pyvc.models_np import NDArr, KINDS, KCODE, kind_is, kind_term, ghost, is_nan, is_nat, no_input_writes
 
 F = "dataiter/vector.py"
 
@@ -55,7 +55,7 @@ class IsNa(Contract):
         cx.prove("flags-exactly-the-missing-elements",
                  z3.Implies(in_range(j, v.sym["len"]), result.seq.at(j) == na_formula(cx.it, v.sym["kind"], v.sym["elem"](j))))
         cx.prove("fresh:new-buffer", result.freshness())
-        cx.prove("frame:no-write-into-input-buffers", not ghost(cx.ctx)["input_writes"])
+        cx.prove("frame:no-write-into-input-buffers", no_input_writes(cx.ctx))
 
 
 # =========================================================================================
@@ -71,7 +71,7 @@ def vec_common(cx, result, v, what="result"):
     cx.prove(f"{what}-is-an-array", ok)
     if ok:
         cx.prove("fresh:new-buffer", result.freshness())
-    cx.prove("frame:no-write-into-input-buffers", not ghost(cx.ctx)["input_writes"])
+    cx.prove("frame:no-write-into-input-buffers", no_input_writes(cx.ctx))
     return ok
 
 
@@ -238,7 +238,7 @@ class VecToList(_Vec):
         cx.prove("same-length", zint(s.len) == v.sym["len"])
         cx.prove("None exactly at the missing positions, values elsewhere",
                  z3.Implies(in_range(j, v.sym["len"]), s.at(j) == z3.If(na_formula(cx.it, v.sym["kind"], v.sym["elem"](j)), NONE, v.sym["elem"](j))))
-        cx.prove("frame:no-write-into-input-buffers", not ghost(cx.ctx)["input_writes"])
+        cx.prove("frame:no-write-into-input-buffers", no_input_writes(cx.ctx))
 
 
 # =========================================================================================
@@ -246,25 +246,21 @@ class VecToList(_Vec):
 # =========================================================================================
 def optimize_for_argsort_contract(it, args, kwargs):
     """Callee contract of Vector._optimize_for_argsort (bounded stand-in only, see OptimizeForArgsortBounded): an array
-    of the same length whose elements compare (== and <) exactly like the receiver's - the receiver itself or, for
-    short strings, a fixed-width copy."""
+    with the same element values - the receiver itself or, for short strings, a fixed-width copy (a cast to U<n> with
+    n >= the longest string keeps every string value, hence == and < on all pairs)."""
     a = args[0]
     ctx = it.ctx
     if a.seq.sort != V:
         return a
     s = a.seq
-    img = ctx.fresh_fn("optimg", V, V)
-    x, y = z3.Consts("x!opt y!opt", V)
-    from pyvc.core import v_lt
-    ctx.assumptions.append(z3.ForAll([x, y], z3.And((img(x) == img(y)) == (x == y), v_lt(img(x), img(y)) == v_lt(x, y)),
-                                     patterns=[z3.MultiPattern(img(x), img(y))]))
-    ctx.assumptions.append(z3.ForAll([x], z3.And(is_nan(img(x)) == is_nan(x), is_nat(img(x)) == is_nat(x)), patterns=[img(x)]))
-    # the result is either the receiver or a converted copy; both cases are covered by one order-isomorphic image
     same = ctx.fresh("opt_is_self", BOOL)
     k = z3.If(same, kind_term(a.kind), z3.IntVal(KCODE["fixedstr"]))
     ctx.assume(z3.Implies(z3.Not(same), kind_term(a.kind) == KCODE["string"]))
-    ctx.assume(z3.Implies(same, z3.ForAll([x], img(x) == x)))
-    out = NDArr(ctx, Seq(s.len, lambda j: img(s.at(j)), V), k, "fresh", a.cls)
+    out = NDArr(ctx, Seq(s.len, s.at, V), k, a.owner, a.cls)
+    # the copy is a new buffer; the uncopied result IS the receiver (same buffer)
+    fresh0 = a.freshness()
+    out.fresh_cond = z3.If(same, z3.BoolVal(fresh0) if isinstance(fresh0, bool) else fresh0, z3.BoolVal(True))
+    out.alias_of_input_unless = z3.Not(same)
     return out
 
 
